@@ -1,6 +1,6 @@
 """Per-property configuration of ./check (theorem lists, harness commands, evidence texts)."""
 
-GENERATORS = ["gen_ucode.py", "gen_consts.py"]
+GENERATORS = ["gen_ucode.py", "gen_consts.py", "gen_c01.py"]
 
 TRUSTED_BASE = [
     "Lean 4.33 kernel (re-checkable with leanchecker); axioms limited to propext, Classical.choice, Quot.sound (audited per theorem with #print axioms)",
@@ -137,4 +137,22 @@ prop("C15",
      rule="every defined first byte (x defined second bytes; quick: a third of them per repetition) with operand addresses in RAM or biased to 0xF0-0xFF, stack pointer in RAM or at the boundary, code placed in low RAM or straddling 0xEE/0xEF/0xF0 (second bytes read from the board input port); edges, executed micro-steps and RAM accesses are observed through Signals/hooks between two is_instruction_done boundaries and compared with steps + accesses and with the step count computed from the control store; MUL/DIV: every 37th operand pair (thorough: all 65 536); distinct = distinct (opcode, second byte, registers, placement)",
      explanation="MUL/DIV step counts are data dependent; their loop functions belong to C01",
      assumptions=["interrupt-taking paths are excluded from the fixed step count (C04 covers interrupt entry)"],
+     )
+
+prop("C01",
+     modules=["Emu2a.Props.C01"],
+     theorems=["Emu2a.C01.isa_refines_partial", "Emu2a.C01.isa_refines_seq", "Emu2a.C01.one_byte_refines",
+               "Emu2a.C01.two_byte_refines", "Emu2a.C01.second_any", "Emu2a.C01.prefix_any", "Emu2a.C01.iter_pendInt",
+               "Emu2a.C01.exec_core", "Emu2a.C01.op_64", "Emu2a.C01.op_84", "Emu2a.C01.op_5C", "Emu2a.C01.op_28",
+               "Emu2a.C01.op_2C", "Emu2a.C01.op_21", "Emu2a.C01.pre_FF", "Emu2a.C01.sec_1F", "Emu2a.C01.sec_2C",
+               "Emu2a.C01.sec_6C"],
+     harness="c01",
+     shrink=True,
+     timeout=14400,
+     exhaustive={"quick": False, "thorough": True},
+     level_text="Lean refinement theorem isa_refines_partial (and isa_refines_seq for instruction sequences): from an instruction boundary with arbitrary R0-R2, PC, SP, flag register, bus contents AND arbitrary scratch registers / instruction register / ALU latch, the data path of the micro-machine over the control store regenerated from the source reaches the next boundary in exactly the architectural state Isa.step prescribes (registers, all flag-register bits, SP, the whole bus). Proved by symbolic execution for every defined first byte outside MUL/DIV (186 generated lemmas), all 16 prefixes and all 82 defined second bytes (284 lemmas), composed for two-byte forms and sequences. PARTIAL: the data-dependent MUL and DIV micro-loops (0xB0-0xCF) are not yet covered by a theorem; for them the property is decided only up to the search: every operand pair x carry-in on the real machine against Isa.step in the thorough tier. The model's edge function is tied to raw/mod.rs, signals.rs, alu.rs by edge-by-edge differential dumps (all private fields) and the exhaustive ALU / next-address comparisons of C08/C09",
+     technique="Lean 4 refinement proof by symbolic execution of the translated control store (284 generated per-opcode lemmas + composition) + differential search: every instruction from random/exhaustive architectural states on the real machine against the ISA specification",
+     rule="(1) every defined first byte (x defined second bytes) x random architectural states with addresses partly biased into 0xF0-0xFF, random RAM/input registers; (2) register-register ALU group incl. MUL/DIV: random operand pairs for all 16 register pairs (thorough: all 65 536 pairs x carry-in for pages 6-D); (3) unary ops x values x 16 flag states (thorough: all 256 x 16); (4) random instruction sequences of up to 200 instructions over opcode-biased images (self-modifying code, PC running into I/O, stale scratch registers); each instruction is executed on the real machine from its boundary and compared with Isa.step (spec.isa), and the model machine is compared after every instruction (d); distinct = distinct (opcode, second byte, registers, code bytes)",
+     explanation="MISR is outside the architectural comparison except for RETI's documented clearing of the key bits",
+     assumptions=["interrupt flip-flop clear during the instruction (interrupt entry is C04)", "halting (supervision, opcodes 0x00/0x01) is lifted in the harness runs and treated in C05"],
      )
